@@ -298,7 +298,7 @@ def s_order(F, R, rule="S-ORDER"):
     for path in ("parser::pre_model::PreModel::create_type_checker", "parser::pre_model::PreModel::create_token_type_map", "parser::model_transformer::model::transform_parsed_problem"):
         f = F.fn(path)
         if f is None:
-            R.ob(rule, "anchor:" + path.rsplit("::", 1)[-1], False, "", "%s not found" % path)
+            R.ob(rule, "anchor:" + path.rsplit("::", 1)[-1], False, "", "%s not found" % path, undecided=True)
             continue
         R.fn(path)
         lf = LocalFlow(f["body"])
@@ -329,4 +329,7 @@ def s_order(F, R, rule="S-ORDER"):
         seqs[path.rsplit("::", 1)[-1]] = seq
     ref = seqs.get("transform_parsed_problem")
     for name, seq in seqs.items():
-        R.ob(rule, name, seq == ref and sorted(seq) == ["api", "std", "text"], "packages/rooc/src/parser/pre_model.rs", "constant sources are declared in the order %s; the transformer declares them in the order %s" % (seq, ref))
+        # both orders read off the code and different: evidence.  An order this clause cannot read (sources chained into one
+        # loop, a helper) is undecided; FRONT-DOOR-EQUIV's constant-source programs decide the behaviour
+        readable = len(seq) == 3 and ref is not None and len(ref) == 3
+        R.ob(rule, name, seq == ref and sorted(seq) == ["api", "std", "text"], "packages/rooc/src/parser/pre_model.rs", "constant sources are declared in the order %s; the transformer declares them in the order %s" % (seq, ref), undecided=not readable)
